@@ -1,6 +1,6 @@
 //go:build verif
 
-package semver
+package hex
 
 // Machine-checked contracts for this package (checked by /verif/govc; see /verif/DESIGN.md).
 // This file contains comments only; it is compiled only under the build tag "verif".
@@ -10,8 +10,11 @@ package semver
 //@   ensures result == 0 ==> a == b                       [C01]
 //@   ensures result == (a < b ? -1 : (a > b ? 1 : 0))     [C03 C08]
 
-//@ func comparePrerelease
-//@   comparator a ~ b                                     [C01]
+//@ func comparePreReleaseIdentifier
+//@   comparator id1 ~ id2                                 [C01]
+
+//@ func comparePreRelease
+//@   comparator pr1 ~ pr2                                 [C01]
 
 //@ func (*Version).Compare
 //@   comparator v ~ other                                 [C01]
